@@ -352,7 +352,7 @@ pub fn tape_checks(ctx: &Ctx) -> Vec<(&'static str, Box<CheckFn<'_>>)> {
 pub fn run(ctx: &Ctx) -> (Level, Report) {
 	let mut report = Report::default();
 	for (name, check) in tape_checks(ctx) {
-		let (quick, factor) = if name == "bulk-twin" { (6_000, 20) } else { (80_000, 20) };
+		let (quick, factor) = if name == "bulk-twin" { (24_000, 10) } else { (300_000, 10) };
 		let out = ctx.random(name, quick, factor, 1024, &*check);
 		report.absorb(name, out);
 	}
